@@ -747,11 +747,12 @@ def run(ctx):
         ex = exact.get(i)
         ms = ometa[i]["ms"]
         has_aux = r.get("original_loop_guard") is not None and any(x.startswith("_old") for x in cond_dump_vars(r["original_loop_guard"]))
-        if ex is not None and ex["model_agree"] is False and text not in model_reported:
+        if ex is not None and ex["model_agree"] is False and ex["src_agree"] is False and text not in model_reported:
+            # neither the source guard (repaired behaviour) nor guard & collapsed conditions (the modelled defect)
             model_reported.add(text)
             ctx.violation(f"stored-guard-model:{text}", {"program_text": text, "original_loop_guard": r.get("original_loop_guard_text")},
-                          f"program.original_loop_guard ({r.get('original_loop_guard_text')}) is not the condition the model "
-                          f"AfterLoop.stored_guard predicts (guard & collapsed first-level conditions) on the typed states\n{text}",
+                          f"program.original_loop_guard ({r.get('original_loop_guard_text')}) is neither the source guard nor the condition "
+                          f"the model AfterLoop.stored_guard predicts (guard & collapsed first-level conditions) on the typed states\n{text}",
                           no_input=True)
         for gi, (g, gr) in enumerate(zip(goals, r["goals"])):
             gname = goal_text(g)
